@@ -11,7 +11,7 @@ from harness.common import EPS_W, bt, dates, frame
 
 BOUNDS = {
     'quick': 'shapes S1, S3, SC; 3-4 dates; arbitrary prior portfolio + K=2 operation sequences incl. several flows per date of either sign; solvent and '
-             'degenerate (capital from 0, value may hit exactly 0) pre-states; scale invariance on a 4-date rebalancing script with capital in [0.5, 1e7], '
+             'degenerate (capital from 0, value may hit exactly 0) pre-states; scale invariance on a 4-date rebalancing script with capital in [1e3, 1e7] (below that bt's absolute sizing tolerance of 1e-8 shows at 1e-9 relative: outside the claim), '
              'flows proportional to capital, proportional commission 1%, bid/offer off (a fixed spread is not size-proportional)',
     'thorough': 'adds S4/S5, K=3 on S1',
 }
@@ -142,7 +142,10 @@ def h_scale(run, cfg):
     """the index of a multi-date script is the same for every capital multiple (fractional positions, proportional commission): the run with a
     symbolic capital is compared, on every path, with the same script at capital 1e6"""
     B = bt()
-    lam = run.real('capital', 0.5, 10 ** 7)
+    # capital from 1000 currency units up: bt's sizing search stops at an ABSOLUTE residual of 1e-8 (np.isclose's default atol), which is a relative
+    # 1e-8/amount of the trade - below ~1000 units of capital that documented tolerance shows in the index at 1e-9 relative (1e-7 absolute on an
+    # index of ~100, this check's tolerance); stated, outside the claim
+    lam = run.real('capital', 1000, 10 ** 7)
     try:
         s = _scale_script(B, run, cfg, lam)
         ref = _scale_script(B, run, cfg, 1000000.0)
